@@ -72,7 +72,8 @@ impl Tmpl {
         match self {
             Tmpl::RsReal | Tmpl::RsPerm => 1,
             Tmpl::De | Tmpl::Iwo => 6,
-            Tmpl::GaGeneric | Tmpl::EsGeneric | Tmpl::GaReal | Tmpl::Pso | Tmpl::Fa | Tmpl::Bh | Tmpl::Cro | Tmpl::AntSystem | Tmpl::Es | Tmpl::LsReal | Tmpl::LsPerm => 4,
+            Tmpl::GaReal => 5,
+            Tmpl::GaGeneric | Tmpl::EsGeneric | Tmpl::GaBinary | Tmpl::Pso | Tmpl::Fa | Tmpl::Bh | Tmpl::Cro | Tmpl::AntSystem | Tmpl::Es | Tmpl::LsReal | Tmpl::LsPerm => 4,
             _ => 3,
         }
     }
@@ -190,7 +191,8 @@ pub fn dispatch<V: TemplateVisitor>(case: &Case, v: &mut V, on_ctor_error: &mut 
     }
     match tmpl {
         Tmpl::GaReal => {
-            let sets = [(6u32, 2u32, 1.0, 0.1, 0.8), (2, 2, 0.5, 1.0, 0.0), (9, 3, 0.0, 0.01, 1.0), (5, 1, 1.0, 0.5, 0.5)];
+            // (the last one differs from the third only in the deviation of a mutation that never runs: still another configuration)
+            let sets = [(6u32, 2u32, 1.0, 0.1, 0.8), (2, 2, 0.5, 1.0, 0.0), (9, 3, 0.0, 0.01, 1.0), (5, 1, 1.0, 0.5, 0.5), (9, 3, 0.0, 0.5, 1.0)];
             let (population_size, tournament_size, pm, deviation, pc) = sets[pset % sets.len()];
             meta.params = format!("population_size={population_size} tournament_size={tournament_size} pm={pm} deviation={deviation} pc={pc}");
             meta.instance = real_instance_desc(inst);
@@ -283,7 +285,7 @@ pub fn dispatch<V: TemplateVisitor>(case: &Case, v: &mut V, on_ctor_error: &mut 
             go!(p, cfg)
         }
         Tmpl::GaBinary => {
-            let sets = [(6u32, 2u32, 0.1, 0.8, 1.0), (3, 3, 0.5, 0.0, 0.5), (8, 1, 0.0, 1.0, 0.0)];
+            let sets = [(6u32, 2u32, 0.1, 0.8, 1.0), (3, 3, 0.5, 0.0, 0.5), (8, 1, 0.0, 1.0, 0.0), (8, 1, 0.7, 1.0, 0.0)];
             let (population_size, tournament_size, rm, pc, pm) = sets[pset % sets.len()];
             let (dim, f) = BIT_INSTANCES[inst % BIT_INSTANCES.len()];
             meta.params = format!("population_size={population_size} tournament_size={tournament_size} rm={rm} pc={pc} pm={pm}");
@@ -403,7 +405,8 @@ pub fn dispatch<V: TemplateVisitor>(case: &Case, v: &mut V, on_ctor_error: &mut 
             go!(Perm::new(dim), rw::permutation_random_walk(rw::PermutationProblemParameters { num_swap }, cond::<Perm>(n, with_optimum)))
         }
         Tmpl::Iwo => {
-            let sets = [(4u32, 10u32, 0u32, 3u32, 0.01, 0.5, 3u32), (1, 1, 1, 1, 0.1, 0.2, 1), (5, 5, 0, 5, 0.001, 1.0, 2), (3, 8, 2, 2, 0.05, 0.06, 4), (3, 6, 0, 1, 0.01, 0.5, 2), (2, 4, 0, 0, 0.01, 0.5, 2)];
+            // the documented requirement is final_deviation <= initial_deviation (the deviation shrinks over the run; equal is allowed)
+            let sets = [(4u32, 10u32, 0u32, 3u32, 0.5, 0.01, 3u32), (1, 1, 1, 1, 0.2, 0.1, 1), (5, 5, 0, 5, 1.0, 0.001, 2), (3, 8, 2, 2, 0.06, 0.06, 4), (3, 6, 0, 1, 0.5, 0.01, 2), (2, 4, 0, 0, 0.5, 0.01, 2)];
             let (initial_population_size, max_population_size, min_number_of_seeds, max_number_of_seeds, initial_deviation, final_deviation, modulation_index) = sets[pset % sets.len()];
             // IWO documents that it does not work with infinite objective values
             let inst = if real_instance_is_finite(inst) { inst } else { inst + 1 };
